@@ -74,12 +74,18 @@ def snapshot(kripke):
         'label_ids': dict((s, id(kripke.labels(s))) for s in states),
         'S0': frozenset(kripke.S0),
         'next_ids': dict((s, id(kripke.next(s))) for s in states),
+        'S0_id': id(kripke.S0),
+        'labelling_function_id': id(kripke.labelling_function()),
+        'labelling_function_keys': list(kripke.labelling_function().keys()),
+        'all_labels': frozenset(kripke.labels()),
+        'state_order': [repr(s) for s in states],
     }
 
 
 def snapshot_diff(a, b):
     """Human-readable first difference between two snapshots, or None."""
-    for key in ('states', 'transitions', 'labels', 'S0', 'label_ids', 'next_ids'):
+    for key in ('states', 'transitions', 'labels', 'S0', 'label_ids', 'next_ids', 'S0_id',
+                'labelling_function_id', 'labelling_function_keys', 'all_labels', 'state_order'):
         if a[key] != b[key]:
             return '%s changed: %r -> %r' % (key, a[key], b[key])
     return None
